@@ -5,12 +5,15 @@
    because of the pessimistic operator "~>", which counts the dot-separated pieces of the
    constraint TEXT and reads the numeric segments of both parsed versions. *)
 From Verif.Base Require Import Bytes GoNum Ord.
+From Verif.Gen Require Operators.
 From Verif.Eco.Gem Require Import FieldsFunc.
 From Verif.Eco Require Import RangeCore VLayer Iface.
 From Verif.Eco.Gem Require Version.
 
 (* operators := []string{">=", "<=", "!=", ">", "<", "="} *)
-Definition gem_ops : list bytes := [$">="; $"<="; $"!="; $">"; $"<"; $"="].
+(* the list is generated from the Go source on every run (tools/gen -> Gen/Operators.v) *)
+Definition gem_ops : list bytes :=
+  Eval cbv delta [Verif.Gen.Operators.gem_ops] in Verif.Gen.Operators.gem_ops.
 Definition pess : bytes := $"~>".
 
 Definition cfg : range_cfg := {|
